@@ -67,17 +67,18 @@ class TermEval:
         if k == 'not':
             return not self.truth(self.ev(t[1]))
         if k == 'bool':
+            # (the value of the LAST operand is returned whatever its truth value: Python does not test it)
             if t[1] == 'and':
                 v = True
-                for x in t[2]:
+                for n_, x in enumerate(t[2]):
                     v = self.ev(x)
-                    if not self.truth(v):
+                    if n_ < len(t[2]) - 1 and not self.truth(v):
                         return v
                 return v
             v = False
-            for x in t[2]:
+            for n_, x in enumerate(t[2]):
                 v = self.ev(x)
-                if self.truth(v):
+                if n_ < len(t[2]) - 1 and self.truth(v):
                     return v
             return v
         if k == 'ite':
